@@ -35,7 +35,8 @@ var tagPolicies = []string{"replace", "append", "prepend", "merge"}
 // tgen draws types. avoid lists defects of other properties whose input
 // class is not to be generated (environment variable C13_AVOID, a debugging
 // knob for runs against trees that still have them): D45 named string types,
-// D26 arrays behind pointers or in maps, D30 pointers to slices or maps.
+// D26 arrays behind pointers or in maps, D30 pointers to slices or maps, D51
+// an object or list as the invalid setting of a regexp.
 type tgen struct {
 	t       *rapid.T
 	counter int
@@ -440,13 +441,14 @@ func badValue(t *rapid.T, td *gen.TD) *gen.Tree {
 	case "dur":
 		return pick(gen.Str("zz"), gen.Str("5 parsecs"), obj)
 	case "regexp":
-		// An object (or list) setting for a *regexp.Regexp is accepted by the library without error (a nil field
-		// becomes a pointer to the zero Regexp, a pre-filled one is left alone). That is a conversion matter
-		// (C03), reported separately; the class is not generated here unless C13_REGEXP_OBJECT is set.
-		if os.Getenv("C13_REGEXP_OBJECT") != "" {
-			return pick(gen.Str("("), gen.Str("[a"), obj)
+		// An object (or list) setting for a *regexp.Regexp is accepted by the library without error (finding
+		// D51: a nil field becomes a pointer to the zero Regexp, a pre-filled one is silently left alone).
+		// The class is generated all the same; run discards it while D51 is open. C13_AVOID=D51 is a
+		// development aid that does not generate it.
+		if avoided()["D51"] {
+			return pick(gen.Str("("), gen.Str("[a"))
 		}
-		return pick(gen.Str("("), gen.Str("[a"))
+		return pick(gen.Str("("), gen.Str("[a"), obj, gen.List(gen.Str("a"), gen.Str("b")))
 	case "unpstr":
 		return gen.Str("bad")
 	}
@@ -595,4 +597,13 @@ func genCase(t *rapid.T) Case {
 	return c
 }
 
-func pathString(p []string) string { return strings.Join(p, ".") }
+// regexpFromContainer recognises the class of finding D51: a field of type
+// *regexp.Regexp whose setting is an object or a list.
+func regexpFromContainer(c *Case) bool {
+	for _, s := range sites(c.T, c.Cfg) {
+		if s.leaf && leafBase(s.t) == "regexp" && s.parent.Vals[s.pos].IsCont() {
+			return true
+		}
+	}
+	return false
+}
